@@ -150,7 +150,34 @@ def test_x_create():
 def test_x_fix():
     assert {v} == snapshot({v + 1})
 '''
-    return {"test_t.py": t, "test_clean.py": clean, "test_x.py": xf, "pyproject.toml": PYPROJECT_PLAIN}
+    # xfail marks inherited from the class / the module (pytestmark): such tests are "marked xfail" as well (C04)
+    xf_cls = f'''import pytest
+from inline_snapshot import snapshot
+
+
+@pytest.mark.xfail
+class TestX:
+    def test_x_cls_create(self):
+        assert {v} == snapshot()
+
+    def test_x_cls_fix(self):
+        assert {v} == snapshot({v + 1})
+'''
+    xf_mod = f'''import pytest
+from inline_snapshot import snapshot
+
+pytestmark = pytest.mark.xfail
+
+
+def test_x_mod_create():
+    assert {v} == snapshot()
+
+
+def test_x_mod_fix():
+    assert {v} == snapshot({v + 1})
+'''
+    return {"test_t.py": t, "test_clean.py": clean, "test_x.py": xf, "test_x_cls.py": xf_cls, "test_x_mod.py": xf_mod,
+            "pyproject.toml": PYPROJECT_PLAIN}
 
 
 FAILING_TESTS = ["test_create", "test_fix", "test_in_create", "test_in_fix", "test_ge_fix", "test_le_fix",
@@ -296,6 +323,10 @@ def c04_violations(case, r, expected_tree):
             bad.append(f"nothing approved but: {d}")
         return bad
     got = r.after
+    for k in sorted(r.before):
+        # absolute oracle (independent of the expectation chain): modules whose tests are all marked xfail never change
+        if k.startswith("test_x") and k in got and got[k] != r.before[k]:
+            bad.append(f"{k}: modified although every test in it is marked xfail")
     for k in sorted(set(got) | set(expected_tree) | set(r.before)):
         if k not in got:
             bad.append(f"{k}: deleted")
